@@ -106,6 +106,9 @@ def replay(case, hist, precision, pres, sub=None, fault_fn=None, compare_snapsho
                 if ad.input_modified:
                     bad.append({'step': step, 'clause': f'update leaves the caller\'s {ad.input_modified} array as it was given'})
                     return bad, last_res, ad
+                if ad.side_violation:
+                    bad.append({'step': step, 'clause': ad.side_violation})
+                    return bad, last_res, ad
             elif op == 'compute':
                 res = ad.compute()
                 if prev_op == 'compute' and last_res is not None and not _same(res, last_res):
